@@ -1,6 +1,7 @@
 (* The padding mode the driver keeps along a history (which checker decides PROPFAIL after each
    op): after a stripe / to_striped / From<EncodedSequence> the padding is the wildcard and
-   check_C04_full applies; after sample / new, and after DenseMatrix::from + new on a buffer WITH
+   check_C04_full applies -- also after StripedSequence::sample, which since /repo 740d563 overwrites
+   its padding cells with the wildcard; after new, and after DenseMatrix::from + new on a buffer WITH
    look-ahead rows, the padding is arbitrary and check_C04_pad applies; Clone, configure,
    configure_wrap and DenseMatrix::from + new without look-ahead rows keep the mode.
    Executable definitions only. *)
@@ -15,7 +16,8 @@ Section Mode.
   Definition pad_after1 (pad : bool) (st : sseq) (o : op3) : bool :=
     match o with
     | O2 (O1 (OStripeInto _ _)) | O2 (O1 (OStripe _ _)) | OFromEnc _ _ => false
-    | O2 (OSample _ _) | O2 (ONew _ _) => true
+    | O2 (OSample _ _) => false          (* the repaired sample (/repo 740d563) pads with the wildcard *)
+    | O2 (ONew _ _) => true
     | OViaMatrix => if swrap st =? 0 then pad else true
     | _ => pad
     end.
